@@ -623,6 +623,9 @@ func init() {
 				specs = append(specs, s)
 			}
 			d.RunWorkers(specs, 16)
+			if !d.Quick() {
+				d.runFuzz("FuzzC17Parse", 1_500_000, "C17:fuzz")
+			}
 		},
 	})
 }
